@@ -20,7 +20,7 @@ def _is_private_copy(value, src):
 def frame_flags(repo):
     """-> (flags dict, notes).  Never raises: a shape it cannot read yields False for that flag (the Lean theorem that needs
     the flag then stops checking and the harness streams of props/c06frame.py look for the failing input)."""
-    flags = {'enumValidatesBeforeRegister': False, 'ctorsRegisterLast': False,
+    flags = {'enumValidatesBeforeRegister': False, 'ctorsRegisterLast': False, 'ctorsPublishComplete': False,
              'targetInfoStoredCopied': False, 'targetInfoHandedOutCopied': False}
     notes = []
     try:
@@ -67,6 +67,33 @@ def frame_flags(repo):
             if cls.name == 'Enum':
                 enum_ok = clean
         flags['ctorsRegisterLast'] = ok_all
+        # nothing a collection reads may be assigned only AFTER the base constructor published the object: a collect() in
+        # another thread can reach it as soon as registry.register(self) returned
+        publish_ok = True
+        readers = ('_child_samples', '_multi_samples', '_samples', 'collect', 'describe', '_get_metric', '_metric_init')
+        for cls in [n for n in mt.body if isinstance(n, ast.ClassDef)]:
+            init = [n for n in cls.body if isinstance(n, ast.FunctionDef) and n.name == '__init__']
+            if not init or cls.name == 'MetricWrapperBase':
+                continue
+            body = init[0].body
+            idx = [i for i, st in enumerate(body) if 'super().__init__(' in ast.unparse(st)]
+            if not idx:
+                continue
+            late = set()
+            for st in body[idx[0] + 1:]:
+                for x in ast.walk(st):
+                    if isinstance(x, ast.Attribute) and isinstance(x.ctx, ast.Store) and isinstance(x.value, ast.Name) and x.value.id == 'self':
+                        late.add(x.attr)
+            read = set()
+            for fn in [n for n in cls.body if isinstance(n, ast.FunctionDef) and n.name in readers]:
+                for x in ast.walk(fn):
+                    if isinstance(x, ast.Attribute) and isinstance(x.ctx, ast.Load) and isinstance(x.value, ast.Name) and x.value.id == 'self':
+                        read.add(x.attr)
+            if late & read:
+                publish_ok = False
+                notes.append('%s.__init__ assigns %s after the base constructor registered the metric, but collection reads it'
+                             % (cls.name, sorted(late & read)))
+        flags['ctorsPublishComplete'] = publish_ok
         flags['enumValidatesBeforeRegister'] = enum_ok
     except Fail as e:
         notes.append('constructors: %s' % e)
@@ -408,6 +435,7 @@ def _emit(ok, table, why='', flags=None, notes=(), shape=None):
         out += '-- frame flag note: %s\n' % n
     for k, d in (('enumValidatesBeforeRegister', 'Enum.__init__ rejects its arguments BEFORE the base constructor registers the metric'),
                  ('ctorsRegisterLast', 'no built-in metric constructor can raise after MetricWrapperBase.__init__ registered it'),
+                 ('ctorsPublishComplete', 'every attribute a collection reads is assigned before MetricWrapperBase.__init__ publishes the object'),
                  ('targetInfoStoredCopied', 'set_target_info stores a private copy of the caller\'s dict'),
                  ('targetInfoHandedOutCopied', 'get_target_info / the collected target_info sample hand out copies')):
         out += '/-- %s -/\ndef %s : Bool := %s\n' % (d, k, 'true' if (flags or {}).get(k) else 'false')
